@@ -654,7 +654,17 @@ def rule_angle_index(run):
                      'one node off (zero-area triangle, hanging node)' % (a0, a1, b1, b0, vin), where=fi.where(ret[0]))
 
 
+def rule_nonetest(run):
+    run.rule('NONETEST', 'in the functions that create columns from other columns, an optional number (a column surface: None means "the '
+             'default") is never tested by truthiness - a surface of exactly 0 would be replaced', floor=1)
+    from .optnum import optnum_rule
+    names = ('refine', 'subdivide_column', 'split_column', 'decompose_column', 'decompose_columns', 'triangulate_column', 'refine_layers',
+             'fit_surface', 'fit_columns')
+    optnum_rule(run, ['mulgrids'], only=lambda fi: fi.name in names)
+
+
 def check(run):
+    run.guarded('NONETEST', rule_nonetest)
     run.guarded('ANGIDX', rule_angle_index)
     run.guarded('TILE', rule_tile)
     run.guarded('DISPATCH', rule_dispatch)
